@@ -40,7 +40,7 @@ var rng *rand.Rand
 var vals = []interface{}{float64(1), float64(2), "a", true, nil, map[string]interface{}{"k": float64(1)},
 	[]interface{}{float64(1), float64(2)}, 1.5, "n1", "n2",
 	[]interface{}{map[string]interface{}{"k": float64(1)}}, map[string]interface{}{"k": []interface{}{float64(1)}}}
-var bkeys = []string{"k", "j", "t", "?x", "?t", "p!", "q!", "xs", "!", "?<lim"}
+var bkeys = []string{"k", "j", "t", "?x", "?t", "p!", "q!", "xs", "!"}
 var nodeNames = []string{"n0", "n1", "n2", "error", "ghost"}
 
 func pick(xs []interface{}) interface{} { return enc.DeepCopy(xs[rng.Intn(len(xs))]) }
@@ -279,6 +279,11 @@ func genBs(b bias) match.Bindings {
 			}
 		}
 		bs[k] = pick(vals)
+	}
+	if p(0.06) {
+		// a binding called error or actionError that is not an error text (the judge compares error texts by presence
+		// only): a failure replaces it
+		bs[pickS([]string{"error", "actionError"})] = pick([]interface{}{float64(7), map[string]interface{}{"k": float64(1)}, []interface{}{float64(1)}, true})
 	}
 	if p(b.perm) {
 		bs["p!"] = pick(vals)
